@@ -365,7 +365,7 @@ Lemma run_timer_ok s t s' o : run_timer s t = (s', o) -> BInv s ->
   (forall r m to c, kind t = Retransmit r m to c -> con_uni r m) -> BInv s' /\ Forall ok_out o.
 Proof.
   unfold run_timer. intros H HB Hk. destruct (kind t) as [r tok|r m to c|p md].
-  - eapply on_timeout_ok; eauto.
+  - inv H. auto.
   - eapply retransmit_ok; eauto.
   - inv H. split; [|constructor]. destruct HB as (H1 & H2 & H3). split; [exact H1|split; [exact H2|]]. cbn.
     intros k r m Hin. apply in_adel in Hin. eauto.
